@@ -120,6 +120,28 @@ def dev_unit(args):
     return 0 if res["status"] == "ok" else 1
 
 
+def dev_kani(args):
+    from . import kani_run
+
+    g = kani_run.load_groups()[args.kani]
+    names = [h["name"] for h in g["harnesses"] if not args.only or h["name"] in args.only]
+    tmo = g.get("timeout_thorough" if args.tier == "thorough" else "timeout_quick", 300)
+    parsed, out, rc, cmd, wall = kani_run.run_kani(names, timeout_s=tmo)
+    print(cmd)
+    bys = {kani_run.short(k): v for k, v in parsed.items()}
+    for n in names:
+        v = bys.get(n)
+        if not v:
+            print("  %-40s NO VERDICT" % n)
+            continue
+        real = [f for f in v["failed"] if not kani_run.NOT_A_FAILURE.search(f)]
+        print("  %-40s %-10s %6ss  %s %s" % (n, v["status"], v["time"], sorted(set(real)), v["notes"]))
+    if args.show or not parsed:
+        print(out[-5000:])
+    print("wall %.1fs" % wall)
+    return 0
+
+
 def update_expect(names):
     reg = load_registry()
     for uname in names or list(reg.VERUS_UNITS):
@@ -144,13 +166,16 @@ def check_property(prop, tier, seed):
     if not pinfo:
         print("property %s is not claimed (see MANIFEST.json not_applicable)" % prop)
         return 2
-    units = [load_unit(reg.VERUS_UNITS[u]) for u in pinfo.get("verus", [])]
+    only = [x for x in os.environ.get("VERIF_ONLY_UNITS", "").split(",") if x]
+    vnames = [u for u in pinfo.get("verus", []) if not only or u in only]
+    knames = [k for k in pinfo.get("kani", []) if not only or k in only]
+    units = [load_unit(reg.VERUS_UNITS[u]) for u in vnames]
     results = run_units_parallel(units, tier, seed)
     kres = []
-    if pinfo.get("kani"):
+    if knames:
         from . import kani_run
 
-        kres = kani_run.run_groups(pinfo["kani"], prop, tier, seed)
+        kres = kani_run.run_groups(knames, prop, tier, seed)
     known = known_findings()
     violations = []
     known_hits = []
@@ -272,6 +297,8 @@ def main(argv):
     ap.add_argument("prop", nargs="?")
     ap.add_argument("--tier", default=os.environ.get("VERIF_TIER", "quick"))
     ap.add_argument("--unit")
+    ap.add_argument("--kani", help="developer: run one Kani group and print a verdict table")
+    ap.add_argument("--only", nargs="*", help="with --kani: only these harnesses")
     ap.add_argument("--show", action="store_true")
     ap.add_argument("--update-expect", nargs="*", default=None)
     ap.add_argument("--replay")
@@ -279,6 +306,8 @@ def main(argv):
     seed = int(os.environ.get("VERIF_SEED", "0") or 0)
     if args.unit:
         return dev_unit(args)
+    if args.kani:
+        return dev_kani(args)
     if args.update_expect is not None:
         return update_expect(args.update_expect)
     if args.replay:
